@@ -66,8 +66,15 @@ def addAngles (n : Nat) (bs : List Bond) (angles : List Angle) : List Angle :=
 
 /-! ### Dihedrals -/
 
-/-- `Molecule::atoms()[a].bonded_neighbours`: the other ends of the bonds containing `a`, in set order. -/
-def neighbours (bs : List Bond) (a : Nat) : List Nat := bs.filterMap fun b => b.other a
+/-- Insertion sort on indices (structural, so it evaluates in the kernel). -/
+def insertNat (x : Nat) : List Nat → List Nat
+  | [] => [x]
+  | y :: ys => if x ≤ y then x :: y :: ys else y :: insertNat x ys
+def sortNat (l : List Nat) : List Nat := l.foldr insertNat []
+
+/-- `Molecule::atoms()[a].bonded_neighbours`: the other ends of the bonds containing `a`, sorted by index (the source
+collects them in set order and then sorts, so the list does not depend on the hash seed). -/
+def neighbours (bs : List Bond) (a : Nat) : List Nat := sortNat (bs.filterMap fun b => b.other a)
 
 abbrev Proper := Nat × Nat × Nat × Nat
 /-- `ProperDihedral::ordered`. -/
